@@ -48,6 +48,9 @@ fn forms(def: &str) -> Vec<Vec<u8>> {
     let suffixes: Vec<&[u8]> = if suffix.is_empty() || suffix == b"1" { vec![b"", b"1"] } else { vec![suffix] };
     let mut v = Vec::new();
     for a in [short, alpha] {
+        if a.is_empty() {
+            continue;
+        }
         for s in &suffixes {
             let mut f = a.to_vec();
             f.extend_from_slice(s);
@@ -94,6 +97,8 @@ fn name_strategy() -> impl Strategy<Value = String> {
         3 => ("[A-Z]{1,5}", "[a-z]{0,5}", prop_oneof![4 => Just(""), 1 => Just("1"), 1 => Just("2")]).prop_map(|(u, l, s)| format!("{u}{l}{s}")),
         1 => "[A-Z]{12}",
         1 => "[A-Z]",
+        // a name that starts in lower case (`pH`, `mVolt`): it has no short form, only its full spelling in any case
+        1 => prop_oneof!["[a-c][A-C]{1,2}[a-c]{0,2}", "[a-z][A-Z][a-z]{1,3}", "[a-c]{1,4}[12]?"],
         // the underscore 488.2 allows in a mnemonic: inside the short form, at its end, inside the optional tail
         1 => prop_oneof!["[A-C]{1,2}_[A-C]{1,2}[a-c]{0,2}", "[A-C]{1,3}_[a-c]{1,3}", "[A-C]{1,3}[a-c]{1,2}_[a-c]{1,2}", "[A-Z]{2,4}_[a-z]{2,4}[12]?"],
     ]
